@@ -36,6 +36,8 @@ use self::drop::*;
 pub use self::error::Error as ExecutorError;
 use self::error::*;
 use self::evaluator::*;
+#[cfg(feature = "verif")]
+pub use self::evaluator::Evaluator as VerifEvaluator;
 use self::explain::*;
 use self::filter::*;
 use self::hash_agg::*;
